@@ -77,7 +77,7 @@ def shape_job(args):
     rnd = random.Random(seed * 1000 + sum(map(ord, name)))
     maxb = bound if isinstance(bound, int) else max(bound.values())
     r, g, d = metacheck.model_check(schema, bound, maxi=maxb, workers=4)
-    budget = 6000 if tier == 'quick' else None
+    budget = 6000 if tier == 'quick' else 100000
     # accepted and multiplicity-/state-dependent outcomes first, unknown-link rejections last
     dull = ('UnknownLinkException', '\\"False\\"')
     stages = [(lambda lab, dst: not any(x in dst for x in dull), 0.75), (lambda lab, dst: True, 0.25)]
